@@ -70,3 +70,13 @@ Theorem C02_canonical_text_parses_back_in_context :
     parse_u fuel (strip (pp_tok en e) ++ rest) = Some (e, rest).
 Proof. exact parse_pp. Qed.
 Print Assumptions C02_canonical_text_parses_back_in_context.
+
+(* Statement lines: the line emitted for a decompiled assignment or statement-position call is the canonical
+   line of the SOURCE statement - "set <target> = <expression>" with the target written as a variable, or as
+   "the <name>" for a property the script does not declare; "<handler> <arguments>" without parentheses. *)
+Theorem C02_statement_line :
+  forall en props s, text_ok_s en props s -> forall pc ind,
+    gen_lingo (reify_s en props pc s) ind = (PyString.indent ind ++ stmt_text en props s ++ "
+")%string.
+Proof. exact stmt_line. Qed.
+Print Assumptions C02_statement_line.
